@@ -716,6 +716,37 @@ def _r12_hex_sizes(model: Model, run: Run, folder: Folder) -> None:
         refused = isinstance(r, Raised)
         run.check(refused == want_refused, fi.qualname, 'hexadecimal extended community of %s: %s' % (label, 'refused' if refused else 'not refused by the length test'), fi.loc(), 'an extended community is 8 octets: a longer value is cut by the decoder it is handed to, a shorter one is sent as it is and can not be printed')
 
+    # ------------------------------------------------------------------ R13 the family of a prefix goes with the prefix
+    run.rule(
+        'C18.R13',
+        'sibling agreement of the text parsers: wherever the settings of an NLRI take the prefix just read '
+        '(`<s>.cidr = CIDR.create_cidr(<p>.pack_ip(), <p>.mask)`) they take its address family too (`<s>.afi = IP.toafi(<p>.top())`, '
+        'or a settings object built for that prefix): a family kept from a template is the family of another prefix',
+        floor=3,
+    )
+    from ..alpha import afind
+
+    n13 = 0
+    for fi in sorted(model.funcs_in('exabgp/configuration/'), key=lambda f: f.qualname):
+        for st, b in afind('V_s.cidr = CIDR.create_cidr(V_p.pack_ip(), V_p.mask)', fi.node):
+            n13 += 1
+            run.analysed(fi)
+            s_, p_ = str(b['V_s']), str(b['V_p'])
+            same = [a for a, _ in afind('V_s.afi = IP.toafi(V_p.top())', fi.node, {'V_s': s_, 'V_p': p_})]
+            pm13 = parent_map(fi.node)
+            from ..flow import block_of
+
+            blk = block_of(pm13, st)
+            ok13 = any(blk is not None and any(x is a for x in blk[2]) for a in same)
+            # ... or the family is named by the command and the prefix is refused when it is of the other one
+            if not ok13 and blk is not None:
+                for x in blk[2]:
+                    if isinstance(x, ast.If) and x.lineno <= st.lineno and any(isinstance(r_, ast.Raise) for r_ in walk_no_nested(x)) and any(norm(c_) in ('%s.afi' % p_, 'IP.toafi(%s.top())' % p_) for c_ in ast.walk(x.test)) and isinstance(x.test, ast.Compare) and isinstance(x.test.ops[0], ast.NotEq):
+                        ok13 = True
+            run.check(ok13, fi.qualname, '%s.cidr and %s.afi are taken from the same prefix %s' % (s_, s_, p_), fi.loc(st), 'the prefix is stored without its family: with prefixes of two families in one command (`attributes ... nlri 10.0.0.0/24 2001:db8::/32`) an NLRI of one family carries the octets of the other')
+    if n13 < 3:
+        run.cannot('only %d sites storing a parsed prefix in NLRI settings found' % n13)
+
 
 # (function, operand) -> why the packed operand is in range although no guard shows it
 PACK_TRIAGED: dict[tuple[str, str], str] = {}
